@@ -50,7 +50,7 @@ def dbl_bits(x):
 
 class Oracle:
     """reference ordered map; judge(op, impl_outcome, impl_store) -> list of (signature, text)"""
-    def __init__(self): self.ref = []
+    def __init__(self): self.ref = []; self.tainted = False
 
     def lookup(self, k):
         for a, b in self.ref:
@@ -61,6 +61,8 @@ class Oracle:
         bad = []
         kind = op[0]
         ref = self.ref
+        if self.tainted:   # a (reported) round trip left two entries with the same key: no longer a map, the rest is judged by the tie only
+            self.ref = store; return bad
         if kind in ("W", "I", "D"):
             k = unhex(op[1]); v = op[2] if kind == "I" else unhex(op[2])
             tok = out[2:]
@@ -141,6 +143,7 @@ class Oracle:
                     sig = ("fits-roundtrip:" + cls) if cls else "fits:%s:%s" % (why[0], "long-key" if why[1] is not None and len(why[1]) > 8 else "short-key")
                     bad.append((sig, "accepted entries do not survive the FITS round trip: %s; before %r, after %r" % (why[2], ref, store)))
             self.ref = store
+            if len(set(a for a, b in store)) != len(store): self.tainted = True
         return bad
 
 
@@ -166,7 +169,7 @@ def run(ctx):
         ctx.broken.append({"kind": "harness build failed (the harness instantiates write_key<int,double,string>, remove_key, read_key<...>; "
                                    "a compile error in those templates shows up here)", "log": [n for n in ctx.notes if "compile failed" in n or "link failed" in n][-1:]})
         return
-    nseq, ncards = (700, 3000) if ctx.tier == "quick" else (12000, 40000)
+    nseq, ncards = (700, 3000) if ctx.tier == "quick" else (40000, 150000)
     base = os.path.join(ctx.scratch, "c16")
     cases, impl, stats, model = base + ".in", base + ".impl", base + ".stats", base + ".model"
     rc, out, err = ctx.run([exe, str(nseq), "40", str(ncards), cases, impl, stats], timeout=1500)
